@@ -489,9 +489,11 @@ def shard_exhaustive(ctx, arg):
 PARTS = {"history": check_history, "exhaustive": lambda ctx, c: check_history(ctx, c, part="exhaustive")}
 
 
+HYP = {"history": (lambda ctx: case_st(7 if ctx.tier == "quick" else 10), check_history)}
+
 def run(ctx):
     quick = ctx.tier == "quick"
-    ctx.hyp(case_st(7 if quick else 10), lambda c: check_history(ctx, c), 1200 if quick else 30000, salt=1)
+    ctx.hyp_sharded("history", 6000 if quick else 60000, salt=1)
     n = 2 if quick else 4
     jobs = [(bi, f, n) for bi in range(len(BASE_SHAPES)) for f in range(len(REDUCED))]
     ctx.parallel("shard_exhaustive", jobs)
